@@ -16,6 +16,7 @@ var impls = map[string]func(string) string{
 	"chunk.all":      implChunkAll,
 	"chunk.buffered": implChunkBuffered,
 	"chunk.disc":     implChunkDisc,
+	"chunk.ops":      implChunkOps,
 	"par.accept":     implParAccept,
 	"fmt.next":       implFmtNext,
 	"hash":           implHash,
